@@ -33,7 +33,8 @@ PROPS = {
     "C18": {
         "claim": "Theorems about the Dijkstra model (replaying any legal pop order, int32 wrap included): predecessor chains are real paths for all weights; exact distances and tight paths for non-negative weights without int32 overflow; unreachable chains never reach the source. Tied to the code by replaying the hooked pop order of the real Dijkstra on generated digraphs and comparing distances, predecessors and EdgeToPath, and by checking the real outputs against an independent Bellman-Ford.",
         "note": "Proved for every legal pop order (superset of what container/heap can produce); container/heap itself is modelled, not verified. Overflow (weights >= 2^31) is excluded by hypothesis and is a listed known finding.",
-        "theorems": [],
+        "theorems": ["ArgMapper.C18.consts_tie", "ArgMapper.C18.tree", "ArgMapper.C18.dist_exact", "ArgMapper.C18.unreachable",
+                     "ArgMapper.C18.greedy_legal"],
         "modules": ["ArgMapper.Props.C18"],
         "rule": "dij: >=2 edges and >=2 vertices reachable from the source.",
         "runs": {
@@ -56,7 +57,9 @@ PROPS = {
     "C20": {
         "claim": "Theorems about the DFS, Kahn, Tarjan and topological shortest-path models for every representation (iteration) order; executable checkers for topological orders and SCC partitions proved sound and complete and applied to the real code's outputs on generated digraphs.",
         "note": "Exactness of the Tarjan transcription is decided through the verified partition checker applied to model and code outputs (partial; see DESIGN.md §10).",
-        "theorems": [],
+        "theorems": ["ArgMapper.C20.dfs_exact", "ArgMapper.C20.dfs_sound_once", "ArgMapper.C20.dfs_abort",
+                     "ArgMapper.C20.isTopoOrder_iff", "ArgMapper.C20.kahn_acyclic", "ArgMapper.C20.kahn_cyclic",
+                     "ArgMapper.C20.reachB_iff", "ArgMapper.C20.isSccPartition_iff", "ArgMapper.C20.topo_exact"],
         "modules": ["ArgMapper.Props.C20"],
         "rule": "dfs/kahn/scc/topo: >=3 vertices and >=2 edges.",
         "runs": {
@@ -64,5 +67,38 @@ PROPS = {
             "thorough": [fam("dfs", 40000, 10), fam("kahn", 30000, 10), fam("scc", 30000, 10), fam("topo", 30000, 10),
                          fam("dfs", 5000, 14), fam("scc", 5000, 14)],
         },
+    },
+    "C14": {
+        "claim": "Theorems about the transcription of newValueSetFromStruct / newValueSet / NewFunc: reported values are exactly the exported non-marker fields in order (struct and pointer forms alike), one type-only value per position for positional forms, names lower-cased from tag or field, emptied by typeOnly, subtype from the tag, a final error result stripped, mixed and doubly-indirected marker structs rejected. Tied to the code by differential runs over function types synthesised with reflect (random tags incl. odd spellings, unexported fields, error positions, non-function values).",
+        "note": "Tag strings are parsed by the model's parseTag, validated against the real parser on generated tags; reflect itself is modelled.",
+        "theorems": [],
+        "modules": ["ArgMapper.Props.C14"],
+        "rule": "sig: at least one reported value.",
+        "runs": {"quick": [fam("sig", 2500, 5)], "thorough": [fam("sig", 150000, 6), fam("sig", 50000, 3)]},
+    },
+    "C15": {
+        "claim": "Theorems about NewValueSet (values reported back lower-cased in order, lookups by name / type / type+subtype under the stated uniqueness, signature render/load round trip). Tied to the code by differential runs over random value lists with provenance-carrying values; built functions inside conversion chains are exercised by the resolver families.",
+        "note": "The struct-tag string round trip is an explicit hypothesis (TagRoundTrips), discharged by evaluation for sample labels and checked on the real code by the correspondence run.",
+        "theorems": [],
+        "modules": ["ArgMapper.Props.C15"],
+        "rule": "vset: at least one value; sig: positional signatures.",
+        "runs": {"quick": [fam("vset", 1500, 6), fam("sig", 1000, 5)], "thorough": [fam("vset", 100000, 6), fam("sig", 50000, 5)]},
+    },
+    "C16": {
+        "claim": "Theorems about the option builder: every key holds its last write, names are matched through lower-casing, call options override defaults, nil values write nothing, a nil option yields the dedicated error, permuting options with pairwise distinct keys leaves the maps unchanged. Tied to the code by comparing the real builder's four maps (hook VerifBuilder) with the model over random option lists with casings, duplicates, default/call splits and a random permutation.",
+        "note": "strings.ToLower is modelled as ASCII lower-casing.",
+        "theorems": [],
+        "modules": ["ArgMapper.Props.C16"],
+        "rule": "opts: at least one option.",
+        "runs": {"quick": [fam("opts", 2000, 8)], "thorough": [fam("opts", 100000, 10), fam("opts", 50000, 5)]},
+    },
+    "C17": {
+        "claim": "Theorems about Result.Len/Out/Err for any list of returned values with or without a final error, and for resolution failures. Tied to the code by differential runs over result arities 0-5 with error / concrete-error / value results in every position.",
+        "note": "Static result types as reported by reflect are modelled by type ids.",
+        "theorems": [],
+        "modules": ["ArgMapper.Props.C17"],
+        "rule": "result: any scenario (arity 0 included).",
+        "runs": {"quick": [fam("result", 2000, 5)], "thorough": [fam("result", 100000, 5)]},
+        "exhaustive": {"quick": False, "thorough": False},
     },
 }
